@@ -15,6 +15,7 @@ import (
 	"fmt"
 	"os"
 	"runtime/debug"
+	"runtime/pprof"
 	"sort"
 	"strings"
 	"sync"
@@ -157,6 +158,11 @@ func main() {
 	specPath := flag.String("spec", "", "run spec (json)")
 	flag.Parse()
 	debug.SetGCPercent(800)
+	if pf := os.Getenv("GOSYM_CPUPROFILE"); pf != "" {
+		f, _ := os.Create(pf)
+		pprof.StartCPUProfile(f)
+		defer pprof.StopCPUProfile()
+	}
 	raw, err := os.ReadFile(*specPath)
 	if err != nil {
 		fatal("", err.Error())
